@@ -118,8 +118,15 @@ pub fn gen_unit(rng: &mut Rng, t: &RTree, level: usize, first: bool, hostile: bo
             }
         }
         19 => {
+            // a different numeric suffix: another digit appended (2 -> 21, none -> 7, 1 -> 10) or the last of
+            // several digits dropped (21 -> 2, 125 -> 12)
             let i = rng.usize(mnems.len());
-            mnems[i].push(b'7');
+            let nd = mnems[i].iter().rev().take_while(|c| c.is_ascii_digit()).count();
+            if nd >= 2 && rng.chance(1, 3) {
+                mnems[i].pop();
+            } else {
+                mnems[i].push(*rng.pick(b"7101230"));
+            }
             mnems[i].truncate(12);
             kind = "other-suffix";
         }
